@@ -35,6 +35,9 @@ pub fn classify_err(msg: &str) -> ErrClass {
         ErrClass::Poison
     } else if msg.contains("panic:") {
         ErrClass::Panic
+    } else if msg.contains("rollback: parser error") {
+        // a parser limit error latched earlier (e.g. items limit inside force_bytes) surfaces here
+        ErrClass::Limit
     } else if msg.contains("lexer error:")
         || msg.contains("parser error:")
         || msg.contains("Current row has")
@@ -696,6 +699,7 @@ impl<'a> Exec<'a> {
             Op::ChkSeq { h, picks } => self.chk_seq(*h, picks),
             Op::ChkFresh { h } => self.chk_fresh(*h),
             Op::ChkByte { h } => self.chk_byte(*h),
+            Op::ChkResplit { h, seed } => self.chk_resplit(*h, *seed),
             Op::ChkDead { h, depth, nodes } => self.chk_dead(*h, *depth, *nodes),
             Op::ChkComplete {
                 h,
@@ -723,6 +727,12 @@ impl<'a> Exec<'a> {
             Op::StopClone { src, dst } => self.op_stop_clone(*src, *dst),
             Op::StopCommit { h, tok } => self.op_stop_commit(*h, *tok),
             Op::ChkStop { h } => self.chk_stop(*h),
+            Op::HostileC {
+                what,
+                tag,
+                data,
+                buf_len,
+            } => self.op_hostile_c(what, tag, data, *buf_len),
         }
     }
 
